@@ -300,24 +300,28 @@ def ni3(run, mod, q, fn, cfg, tnode, stmt, e, reached):
     starts = [s for lab, s in tnode.succ if lab == "false"]
     bad = []
     seen = set()
-    stack = [(s, 0) for s in starts]
+    stack = [(s, 0, frozenset()) for s in starts]   # (node, the primitive's own event seen, names holding WarningEvent(error=e))
     ok_paths = 0
     while stack:
-        n, carve = stack.pop()
-        if (n.id, carve) in seen:
+        n, carve, held = stack.pop()
+        if (n.id, carve, held) in seen:
             continue
-        seen.add((n.id, carve))
+        seen.add((n.id, carve, held))
         if n is cfg.exit or n is cfg.raise_exit:
             bad.append(("exit", n))
             continue
         if n.kind == "test":
             t = n.ast
-            # `if e:` / `if e is not None:` / `if not e:` ... - on this path e is the error object (truthy, not None)
+            # `if e:` / `if e is not None:` / `if not e:` ... - on this path e is the error object (truthy, not None); the same
+            # holds for a name the warning was stored in
             known = error_test(t, e)
+            for w in held:
+                if known is None:
+                    known = error_test(t, w)
             if known is not None:
-                stack.extend((s, carve) for lab, s in n.succ if lab == ("true" if known else "false"))
+                stack.extend((s, carve, held) for lab, s in n.succ if lab == ("true" if known else "false"))
                 continue
-            stack.extend((s, carve) for _, s in n.succ)
+            stack.extend((s, carve, held) for _, s in n.succ)
             continue
         if n.kind == "stmt":
             a = n.ast
@@ -330,6 +334,9 @@ def ni3(run, mod, q, fn, cfg, tnode, stmt, e, reached):
             if ys:
                 y = ys[0]
                 v = y.value
+                if isinstance(y, ast.Yield) and isinstance(v, ast.Name) and v.id in held:
+                    ok_paths += 1
+                    continue
                 if isinstance(y, ast.Yield) and isinstance(v, ast.Call) and call_name(v) == "WarningEvent":
                     arg = kwarg(v, "error") or (v.args[0] if v.args else None)
                     if isinstance(arg, ast.Name) and arg.id == e:
@@ -340,7 +347,7 @@ def ni3(run, mod, q, fn, cfg, tnode, stmt, e, reached):
                     continue
                 if isinstance(y, ast.Yield) and carve == 0 and fn.name == "process_primitive" and \
                         (isinstance(v, ast.Name) or (isinstance(v, ast.Call) and call_name(v) == "MarshalEvent")):
-                    stack.extend((s, 1) for _, s in n.succ)  # the offending primitive's own event
+                    stack.extend((s, 1, held) for _, s in n.succ)  # the offending primitive's own event
                     continue
                 bad.append(("other-yield", n))
                 continue
@@ -348,7 +355,18 @@ def ni3(run, mod, q, fn, cfg, tnode, stmt, e, reached):
             if isinstance(a, ast.Assign) and any(isinstance(t_, ast.Name) and t_.id == e for t_ in a.targets):
                 bad.append(("rebinds-error", n))
                 continue
-        stack.extend((s, carve) for _, s in n.succ)
+            # the warning may be built now and yielded later: `w = WarningEvent(error=e)`
+            if isinstance(a, ast.Assign) and len(a.targets) == 1 and isinstance(a.targets[0], ast.Name):
+                v = a.value
+                if isinstance(v, ast.Call) and call_name(v) == "WarningEvent":
+                    arg = kwarg(v, "error") or (v.args[0] if v.args else None)
+                    if isinstance(arg, ast.Name) and arg.id == e:
+                        reached.add(id(v))
+                        stack.extend((s, carve, held | {a.targets[0].id}) for _, s in n.succ)
+                        continue
+                if a.targets[0].id in held:
+                    held = held - {a.targets[0].id}
+        stack.extend((s, carve, held) for _, s in n.succ)
     if bad:
         kind, node = bad[0]
         why = {"exit": "falls off the end", "return": "returns", "wraps-other": "wraps a different error object",
